@@ -108,6 +108,7 @@ def session(root, sess, plan=None, frozen_check=False):
     (tag, payload) observations."""
     from joblib import Memory, expires_after
     warnings.simplefilter("ignore")
+    __import__("logging").disable(50)
     out = []
     if frozen_check:
         # clause (1), strictly before anything touches the directory
